@@ -335,6 +335,14 @@ const (
 	// before it exhausts the Go call stack.  Legitimate composed nesting
 	// stays far below this; only a degenerate or malicious chain reaches it.
 	MaxExtractDepth = 256
+
+	// MaxGraphicsStateDepth caps the nesting depth of the graphics state
+	// stack (the q operator).  PDF 1.x limits the depth to 28; PDF 2.0 gives
+	// no number.  Every saved state is a copy of the whole graphics state, so
+	// a content stream of nothing but q operators (which deflates to almost
+	// nothing) would otherwise cost about a kilobyte of memory per operator.
+	// Legitimate content stays far below this.
+	MaxGraphicsStateDepth = 4096
 )
 
 const (
